@@ -76,7 +76,7 @@ def one(ctx, rng, xr, model, dmod, disp, direct):
         opts = dict(with_wind=bool(rng.random() < 0.7), with_depth=bool(rng.random() < 0.6))
         ds, t = N.wwm(rng, **opts)
     elif model == "era5":
-        opts = dict(missing=bool(rng.random() < 0.7))
+        opts = dict(missing=bool(rng.random() < 0.7), custom=bool(rng.random() < 0.35))
         ds, t = N.era5(rng, **opts)
     else:
         opts = dict(with_moments=bool(rng.random() < 0.75))
@@ -86,6 +86,13 @@ def one(ctx, rng, xr, model, dmod, disp, direct):
     if model == "ndbc":
         kw = {"directional": bool(rng.random() < 0.75), "dd": float(rng.choice([10.0, 5.0, 20.0, 45.0]))}
         key += "|directional=%s" % kw["directional"]
+    if "reader_options" in t:
+        kw = dict(t["reader_options"])
+        as_array = bool(rng.random() < 0.5)
+        if as_array:
+            kw = {k_: np.asarray(v_) for k_, v_ in kw.items()}
+        key += "|freqs,dirs=%s" % ("ndarray" if as_array else "list")
+        rec.note("era5_reader_options:" + via)
     if model != "ndbc" and rng.random() < 0.3:
         # the native variables held in another dimension order (e.g. direction before frequency): pairing of the
         # conversion factors with the axes must go by dimension name
@@ -114,6 +121,8 @@ def one(ctx, rng, xr, model, dmod, disp, direct):
         out = dmod.read_dataset(ds, **kw) if via == "read_dataset" else direct[model](ds, **kw)
     except Exception as e:
         mech = "converter-raises:" + model
+        if model == "era5" and "truth value of an array" in repr(e) and any(isinstance(v_, np.ndarray) for v_ in kw.values()):
+            mech = "era5-array-valued-reader-options-raise"
         if model == "wwm" and not opts["with_depth"]:
             mech = "wwm-missing-optional-variable-raises"
         rec.bad("convert", key, {"raised": repr(e)[:300], "variables": list(ds.variables)}, mech)
